@@ -14,6 +14,7 @@ import sys
 from concurrent.futures import ThreadPoolExecutor
 
 V = os.path.dirname(os.path.dirname(os.path.abspath(__file__)))
+BASE = os.environ.get("PAR_EVAL_BASE", "/tmp/pv")      # two evaluations running at the same time need different bases
 
 
 def sh(cmd, cwd=None, env=None, timeout=7200):
@@ -22,7 +23,7 @@ def sh(cmd, cwd=None, env=None, timeout=7200):
 
 
 def setup(k):
-    base = "/tmp/pv_%d" % k
+    base = "%s_%d" % (BASE, k)
     sh("git -C /repo worktree remove --force %s/repo" % base)
     shutil.rmtree(base, ignore_errors=True)
     os.makedirs(base)
@@ -33,7 +34,7 @@ def setup(k):
 
 
 def teardown(k):
-    base = "/tmp/pv_%d" % k
+    base = "%s_%d" % (BASE, k)
     sh("git -C /repo worktree remove --force %s/repo" % base)
     shutil.rmtree(base, ignore_errors=True)
     sh("git -C /repo worktree prune")
